@@ -63,6 +63,9 @@ class C08(core.Check):
             f.write('%% nested\n\\LTinput{%s}\n\\newcommand{\\ydy}{ydybody}\n' % self.f1 + 'x' * 100 + '\n')
         with open(self.f3, 'w') as f:
             f.write('\\newcommand{\\ydz}{ydzbody}\n')
+        self.fbin = os.path.join(self.tmp, 'latin1.tex')
+        with open(self.fbin, 'wb') as f:
+            f.write('\\newcommand{\\ydw}{B\xe4r \xff\xfe}\n'.encode('latin-1'))
 
     def teardown(self):
         shutil.rmtree(self.tmp, ignore_errors=True)
@@ -156,7 +159,8 @@ class C08(core.Check):
             ins = rnd.choice(["\\'1", '\\`+', '\\^2', '\\"9', '\\~?', '\\c{3}', '\\v 7']) + ' '
             return src[:at] + ins + rest, at, None
         if f == 'ltinput':
-            ins = '\\LTinput{/nonexistent/dir/file.tex} '
+            # unreadable: missing file, a directory, or a file that cannot be decoded in the input encoding
+            ins = '\\LTinput{%s} ' % rnd.choice(['/nonexistent/dir/file.tex', self.tmp, self.fbin, self.fbin])
             return src[:at] + ins + rest, at, None
         raise ValueError(f)
 
